@@ -22,11 +22,12 @@ func ByDate(fallbackSort NameSorter) NameSorter {
 			if format != "" {
 				d0, err0 := time.Parse(format, a)
 				d1, err1 := time.Parse(format, b)
-				if err0 == nil && err1 == nil {
-					return d0.Before(d1)
-				} else {
+				if err0 != nil || err1 != nil {
 					fallback = true
+				} else if !d0.Equal(d1) {
+					return d0.Before(d1)
 				}
+				// Same instant: the fallback breaks the tie
 			}
 		}
 
